@@ -574,6 +574,136 @@ inline bool levels_S(Rng& r, uint64_t idx)
   return ok && !run.failed;
 }
 
+// mode F: logger level and sink thresholds are changed from another thread while several threads log; for a statement
+// either value that was current during the call interval is accepted ("interval rule")
+inline bool levels_F(Rng& r, uint64_t idx)
+{
+  World w;
+  w.tag = "vF" + std::to_string(idx);
+  w.random_backend_options(r);
+  uint32_t const ns = static_cast<uint32_t>(r.range(1, 2));
+  w.make_sinks(ns);
+  w.make_logger(ns == 1 ? std::vector<uint32_t>{0} : std::vector<uint32_t>{0, 1});
+  quill::LogLevel const la = static_cast<quill::LogLevel>(r.below(9)), lb = static_cast<quill::LogLevel>(r.below(9));
+  quill::LogLevel const lmin = std::min(la, lb), lmax = std::max(la, lb);
+  std::vector<std::pair<quill::LogLevel, quill::LogLevel>> sl;
+  for (uint32_t i = 0; i < ns; ++i)
+  {
+    quill::LogLevel a = static_cast<quill::LogLevel>(r.below(9)), b = r.chance(1, 2) ? a : static_cast<quill::LogLevel>(r.below(9));
+    sl.emplace_back(std::min(a, b), std::max(a, b));
+    w.sinks[i]->set_log_level_filter(a);
+  }
+  w.loggers[0].lg->set_log_level(la);
+  g_delay.store(static_cast<uint32_t>(r.pick({0, 1})));
+  recorder().clear();
+  quill::Backend::start(w.bo);
+  std::atomic<bool> stop{false};
+  std::thread changer([&]
+                      {
+                        Rng cr{mix(idx, 991)};
+                        while (!stop.load())
+                        {
+                          w.loggers[0].lg->set_log_level(cr.chance(1, 2) ? la : lb);
+                          for (uint32_t i = 0; i < ns; ++i) w.sinks[i]->set_log_level_filter(cr.chance(1, 2) ? sl[i].first : sl[i].second);
+                          std::this_thread::sleep_for(std::chrono::microseconds(cr.below(80)));
+                        }
+                      });
+  uint32_t const nt = static_cast<uint32_t>(r.range(2, 4));
+  struct T
+  {
+    std::thread th;
+    std::vector<Issue> issues;
+    bool bad{false};
+  };
+  std::vector<T> ts(nt);
+  for (uint32_t t = 0; t < nt; ++t)
+  {
+    uint64_t tseed = mix(r.next(), t);
+    ts[t].th = std::thread([&, t, tseed]
+                           {
+                             Rng tr{tseed};
+                             uint32_t n = static_cast<uint32_t>(tr.range(50, 300));
+                             for (uint32_t s = 0; s < n && !ts[t].bad; ++s)
+                             {
+                               quill::LogLevel lvl = static_cast<quill::LogLevel>(tr.below(9));
+                               bool dynamic = tr.chance(1, 3);
+                               uint32_t len = static_cast<uint32_t>(tr.range(0, 30));
+                               std::string pl = payload(t + 1, s, len);
+                               uint64_t before = tl_evals;
+                               log_with_real_macro(w.loggers[0].lg, lvl, dynamic, t + 1, s, pl);
+                               bool evaluated = tl_evals != before;
+                               if ((lvl >= lmax && !evaluated) || (lvl < lmin && evaluated))
+                               {
+                                 violation("C16", evaluated ? "arguments-evaluated-below-logger-level" : "statement-at-or-above-logger-level-not-logged",
+                                           J{}.str("level", level_name(lvl)).str("logger_level_a", level_name(la)).str("logger_level_b", level_name(lb)).boolean("dynamic", dynamic).str("scenario", "levels_F"));
+                                 ts[t].bad = true;
+                               }
+                               if (evaluated)
+                               {
+                                 Issue is;
+                                 is.tid = t + 1; is.seq = s; is.logger = 0; is.level = lvl; is.len = len; is.res = 1; is.dynamic = dynamic;
+                                 ts[t].issues.push_back(is);
+                               }
+                             }
+                           });
+  }
+  for (auto& t : ts) t.th.join();
+  stop.store(true);
+  changer.join();
+  quill::Backend::stop();
+  g_delay.store(0);
+  bool ok = true;
+  std::vector<Issue> all;
+  for (auto& t : ts) { all.insert(all.end(), t.issues.begin(), t.issues.end()); if (t.bad) ok = false; }
+  if (ok)
+  {
+    auto evs = recorder().snapshot();
+    DeliverOpts o;
+    o.prop = "C16";
+    // the sink threshold is read when the backend processes the statement: either value may be in force
+    std::function<bool(Issue const&, uint32_t)> acc = [&](Issue const& is, uint32_t si) { return is.level >= sl[si].first; };
+    o.sink_accepts = acc;
+    // optional = between the two thresholds of SOME sink of the logger; checked per sink below
+    o.may_be_missing = [&](Issue const& is)
+    {
+      for (uint32_t si = 0; si < ns; ++si) if (is.level >= sl[si].first && is.level < sl[si].second) return true;
+      return false;
+    };
+    ok = check_delivery(w, all, evs, o, "levels_F");
+    if (ok)
+    {
+      // a statement at or above a sink's higher threshold must be on that sink (may_be_missing above is per logger)
+      EvIndex ix{w, evs};
+      for (auto const& is : all)
+        for (uint32_t si = 0; si < ns && ok; ++si)
+          if (is.level >= sl[si].second && !ix.write_g.count(std::make_tuple(si, is.tid, is.seq)))
+          {
+            violation("C16", "statement-at-or-above-sink-level-not-written", J{}.unum("sink", si).str("level", level_name(is.level)).unum("tid", is.tid).unum("seq", is.seq).str("scenario", "levels_F"));
+            ok = false;
+          }
+      for (auto const& e : evs)
+      {
+        if (!ok) break;
+        if (e.kind != 'w' || e.sink < w.sink_id_base || e.sink >= w.sink_id_base + ns) continue;
+        Parsed p = parse_msg(e.msg);
+        if (!p.ok) continue;
+        for (auto const& is : all)
+          if (is.tid == p.tid && is.seq == p.seq && (e.level != is.level || e.level_desc != level_name(is.level)))
+          {
+            violation("C16", "statement-reported-with-wrong-level", J{}.str("given", level_name(is.level)).str("reported", level_name(e.level)).boolean("dynamic", is.dynamic).str("scenario", "levels_F"));
+            ok = false;
+            break;
+          }
+      }
+    }
+  }
+  stat_add("levels_scenarios");
+  stat_add("levels_statements_enqueued", static_cast<long long>(all.size()));
+  stat_sig("levels_sigs", "F/" + std::to_string(static_cast<int>(la)) + "/" + std::to_string(static_cast<int>(lb)) + "/" + std::to_string(nt) + "/" + std::to_string(ns) + "/" + std::to_string(idx % 40));
+  w.teardown_loggers();
+  return ok;
+}
+
 // ================================================================================================ lines (C12 end to end)
 inline bool lines_S(Rng& r, uint64_t idx)
 {
